@@ -42,6 +42,7 @@ import (
 	"github.com/tikv/pd/server/kv"
 	"github.com/tikv/pd/tests"
 	"go.etcd.io/etcd/clientv3"
+	"go.etcd.io/etcd/etcdserver/api/v3rpc/rpctypes"
 	"google.golang.org/grpc"
 	"google.golang.org/grpc/codes"
 	"google.golang.org/grpc/status"
@@ -376,7 +377,8 @@ func (t *gateTxn) Commit() (*clientv3.TxnResponse, error) {
 		h.after(t.info)
 	}
 	if action == 2 {
-		return nil, errInjectedEtcd
+		// what etcd really answers when a txn was applied but its leader failed before acknowledging it
+		return nil, rpctypes.ErrTimeoutDueToLeaderFail
 	}
 	return resp, err
 }
@@ -1053,7 +1055,7 @@ func (b *bootRun) faultPhase(c BootCase, info *vkit.Info, mk func(Req) *inst, in
 		b.winner = in
 		return b.verify(stage, false)
 	}
-	if !strings.Contains(o.err, errInjectedEtcd.Error()) {
+	if !strings.Contains(o.err, errInjectedEtcd.Error()) && !strings.Contains(o.err, rpctypes.ErrTimeoutDueToLeaderFail.Error()) {
 		if envError(o.err) || strings.Contains(o.err, "not leader") {
 			return errInconclusive
 		}
